@@ -4,8 +4,11 @@ import (
 	"bytes"
 	"fmt"
 	"go/ast"
+	"go/constant"
 	"go/printer"
 	"go/token"
+	"path/filepath"
+	"regexp"
 	"strings"
 )
 
@@ -27,16 +30,178 @@ type opsTarget struct {
 type opsGen struct {
 	fset *token.FileSet
 	recv string // receiver variable name, "" if none
+	// canonical spellings, so that renaming a local variable or an unexported struct field does not
+	// change a skeleton: locals become $1, $2, ... in order of first occurrence in the function's
+	// skeleton; an unexported field becomes %<k>, k being its position in the struct that declares it
+	// (left alone when structs of the file declare the name at different positions)
+	locals map[string]bool
+	seen   map[string]int
+	fields map[string]string
+	consts *constEnv // unexported package-level constants are written as their values
+}
+
+var identRe = regexp.MustCompile(`[A-Za-z_][A-Za-z0-9_]*`)
+
+// canon rewrites identifiers of a printed expression: `.name` for a known unexported field, and
+// local names that are not selectors.
+func (g *opsGen) canon(s string) string {
+	if g.locals == nil && g.fields == nil {
+		return s
+	}
+	var sb strings.Builder
+	last := 0
+	for _, m := range identRe.FindAllStringIndex(s, -1) {
+		a, b := m[0], m[1]
+		tok := s[a:b]
+		// not part of a canonical name, a number or a string escape
+		if a > 0 && (s[a-1] == '$' || s[a-1] == '%' || (s[a-1] >= '0' && s[a-1] <= '9')) {
+			continue
+		}
+		rep := ""
+		if a > 0 && s[a-1] == '.' {
+			if f, ok := g.fields[tok]; ok {
+				rep = f
+			}
+		} else if g.locals[tok] && tok != g.recv {
+			k, ok := g.seen[tok]
+			if !ok {
+				k = len(g.seen) + 1
+				g.seen[tok] = k
+			}
+			rep = fmt.Sprintf("$%d", k)
+		}
+		if rep == "" && (a == 0 || s[a-1] != '.') && g.consts != nil && !ast.IsExported(tok) {
+			if _, isConst := g.consts.specs[tok]; isConst {
+				if v, err := g.consts.eval(&ast.Ident{Name: tok}); err == nil && (v.Kind() == constant.Int || v.Kind() == constant.String || v.Kind() == constant.Bool) {
+					rep = v.ExactString()
+				}
+			}
+		}
+		if rep == "" {
+			continue
+		}
+		sb.WriteString(s[last:a])
+		sb.WriteString(rep)
+		last = b
+	}
+	sb.WriteString(s[last:])
+	return sb.String()
+}
+
+// fieldKey canonicalises the key of a struct literal element.
+func (g *opsGen) fieldKey(s string) string {
+	if f, ok := g.fields[s]; ok {
+		return f
+	}
+	return s
+}
+
+func (g *opsGen) op(kind, what string) string { return op(kind, g.canon(what)) }
+
+// collectLocals gathers every name a function binds: parameters, results, := and var declarations,
+// range variables, parameters of function literals, type-switch variables.
+func collectLocals(fd *ast.FuncDecl) map[string]bool {
+	out := map[string]bool{}
+	addFields := func(fl *ast.FieldList) {
+		if fl == nil {
+			return
+		}
+		for _, f := range fl.List {
+			for _, n := range f.Names {
+				out[n.Name] = true
+			}
+		}
+	}
+	addFields(fd.Type.Params)
+	addFields(fd.Type.Results)
+	ast.Inspect(fd.Body, func(n ast.Node) bool {
+		switch x := n.(type) {
+		case *ast.AssignStmt:
+			if x.Tok == token.DEFINE {
+				for _, l := range x.Lhs {
+					if id, ok := l.(*ast.Ident); ok {
+						out[id.Name] = true
+					}
+				}
+			}
+		case *ast.RangeStmt:
+			if x.Tok == token.DEFINE {
+				for _, e := range []ast.Expr{x.Key, x.Value} {
+					if id, ok := e.(*ast.Ident); ok {
+						out[id.Name] = true
+					}
+				}
+			}
+		case *ast.FuncLit:
+			addFields(x.Type.Params)
+			addFields(x.Type.Results)
+		case *ast.ValueSpec:
+			for _, nm := range x.Names {
+				out[nm.Name] = true
+			}
+		}
+		return true
+	})
+	delete(out, "_")
+	return out
+}
+
+// collectFields maps the unexported field names of the structs declared in a file to %<position>.
+func collectFields(f *ast.File) map[string]string {
+	pos := map[string]int{}
+	bad := map[string]bool{}
+	for _, d := range f.Decls {
+		gd, ok := d.(*ast.GenDecl)
+		if !ok || gd.Tok != token.TYPE {
+			continue
+		}
+		for _, sp := range gd.Specs {
+			st, isStruct := sp.(*ast.TypeSpec).Type.(*ast.StructType)
+			if !isStruct {
+				continue
+			}
+			k := 0
+			for _, fl := range st.Fields.List {
+				for _, n := range fl.Names {
+					k++
+					if ast.IsExported(n.Name) {
+						continue
+					}
+					if p, dup := pos[n.Name]; dup && p != k {
+						bad[n.Name] = true
+					}
+					pos[n.Name] = k
+				}
+				if len(fl.Names) == 0 {
+					k++
+				}
+			}
+		}
+	}
+	out := map[string]string{}
+	for n, k := range pos {
+		if !bad[n] {
+			out[n] = fmt.Sprintf("%%%d", k)
+		}
+	}
+	return out
 }
 
 func (g *opsGen) text(n ast.Node) string {
 	var b bytes.Buffer
 	_ = printer.Fprint(&b, g.fset, n)
-	s := strings.Join(strings.Fields(b.String()), " ")
+	s := g.canon(strings.Join(strings.Fields(b.String()), " "))
 	if len(s) > 80 {
 		s = s[:80]
 	}
 	return s
+}
+
+// rawText prints a node without canonical names (keys of struct literals are field names, never locals).
+func (g *opsGen) rawText(n ast.Node) string {
+	var b bytes.Buffer
+	_ = printer.Fprint(&b, g.fset, n)
+	return strings.Join(strings.Fields(b.String()), " ")
 }
 
 // norm replaces the receiver variable by "@" in a selector text.
@@ -76,7 +241,7 @@ func (g *opsGen) expr(e ast.Expr) (out []string) {
 						if len(x.Args) > 1 {
 							capText = g.norm(g.text(x.Args[1]))
 						}
-						return []string{op("make-chan", capText)}
+						return []string{g.op("make-chan", capText)}
 					}
 				}
 				for _, a := range x.Args[1:] {
@@ -84,12 +249,12 @@ func (g *opsGen) expr(e ast.Expr) (out []string) {
 				}
 				return out
 			case "close":
-				return []string{op("close", g.norm(selText(x.Args[0])))}
+				return []string{g.op("close", g.norm(selText(x.Args[0])))}
 			case "append":
 				for _, a := range x.Args {
 					out = append(out, g.expr(a)...)
 				}
-				return append(out, op("append", g.norm(g.text(x.Args[0]))))
+				return append(out, g.op("append", g.norm(g.text(x.Args[0]))))
 			}
 			if opsBuiltins[id.Name] {
 				for _, a := range x.Args {
@@ -116,10 +281,10 @@ func (g *opsGen) expr(e ast.Expr) (out []string) {
 		if ft == "" {
 			ft = g.text(x.Fun)
 		}
-		return append(out, op("call", g.norm(ft)))
+		return append(out, g.op("call", g.norm(ft)))
 	case *ast.UnaryExpr:
 		if x.Op == token.ARROW {
-			return append(g.expr(x.X), op("recv", g.norm(g.text(x.X))))
+			return append(g.expr(x.X), g.op("recv", g.norm(g.text(x.X))))
 		}
 		return g.expr(x.X)
 	case *ast.FuncLit:
@@ -142,7 +307,7 @@ func (g *opsGen) expr(e ast.Expr) (out []string) {
 			if kv, ok := el.(*ast.KeyValueExpr); ok {
 				// which value a struct field is built from: mu: h.mu, textAttrs: append(...)
 				if _, isFn := kv.Value.(*ast.FuncLit); !isFn {
-					out = append(out, op("lit-field", g.norm(g.text(kv.Key))+": "+g.norm(g.text(kv.Value))))
+					out = append(out, op("lit-field", g.fieldKey(g.rawText(kv.Key))+": "+g.canon(g.norm(g.text(kv.Value)))))
 				}
 			}
 		}
@@ -160,9 +325,9 @@ func (g *opsGen) expr(e ast.Expr) (out []string) {
 }
 
 func (g *opsGen) funcLit(fl *ast.FuncLit) []string {
-	out := []string{op("func-begin", "")}
+	out := []string{g.op("func-begin", "")}
 	out = append(out, g.block(fl.Body.List)...)
-	return append(out, op("func-end", ""))
+	return append(out, g.op("func-end", ""))
 }
 
 func (g *opsGen) block(list []ast.Stmt) (out []string) {
@@ -178,7 +343,7 @@ func (g *opsGen) stmt(s ast.Stmt) (out []string) {
 		return g.expr(x.X)
 	case *ast.SendStmt:
 		out = append(out, g.expr(x.Value)...)
-		return append(out, op("send", g.norm(g.text(x.Chan))))
+		return append(out, g.op("send", g.norm(g.text(x.Chan))))
 	case *ast.AssignStmt:
 		for _, r := range x.Rhs {
 			out = append(out, g.expr(r)...)
@@ -188,26 +353,26 @@ func (g *opsGen) stmt(s ast.Stmt) (out []string) {
 			if _, isID := x.Lhs[0].(*ast.Ident); isID {
 				switch x.Rhs[0].(type) {
 				case *ast.Ident, *ast.SelectorExpr, *ast.BasicLit, *ast.SliceExpr:
-					out = append(out, op("assign", g.norm(g.text(x))))
+					out = append(out, g.op("assign", g.norm(g.text(x))))
 				}
 			}
 		}
 		for _, l := range x.Lhs {
 			t := g.norm(selText(l))
 			if strings.HasPrefix(t, "@.") || t == "*@" {
-				out = append(out, op("field-write", t))
+				out = append(out, g.op("field-write", t))
 			} else if st, ok := l.(*ast.StarExpr); ok {
-				out = append(out, op("deref-write", g.norm(g.text(st.X))))
+				out = append(out, g.op("deref-write", g.norm(g.text(st.X))))
 			} else if ix, ok := l.(*ast.IndexExpr); ok {
 				out = append(out, g.expr(ix.Index)...)
-				out = append(out, op("index-write", g.norm(g.text(ix.X))))
+				out = append(out, g.op("index-write", g.norm(g.text(ix.X))))
 			}
 		}
 		return out
 	case *ast.IncDecStmt:
 		t := g.norm(selText(x.X))
 		if strings.HasPrefix(t, "@.") {
-			return []string{op("field-write", t)}
+			return []string{g.op("field-write", t)}
 		}
 		return nil
 	case *ast.DeclStmt:
@@ -226,22 +391,22 @@ func (g *opsGen) stmt(s ast.Stmt) (out []string) {
 			out = append(out, g.expr(a)...)
 		}
 		if fl, ok := x.Call.Fun.(*ast.FuncLit); ok {
-			out = append(out, op("defer-func-begin", ""))
+			out = append(out, g.op("defer-func-begin", ""))
 			out = append(out, g.block(fl.Body.List)...)
-			return append(out, op("defer-func-end", ""))
+			return append(out, g.op("defer-func-end", ""))
 		}
-		return append(out, op("defer", g.norm(g.text(x.Call.Fun))))
+		return append(out, g.op("defer", g.norm(g.text(x.Call.Fun))))
 	case *ast.GoStmt:
 		for _, a := range x.Call.Args {
 			out = append(out, g.expr(a)...)
 		}
-		return append(out, op("go", g.norm(g.text(x.Call.Fun))))
+		return append(out, g.op("go", g.norm(g.text(x.Call.Fun))))
 	case *ast.IfStmt:
 		if x.Init != nil {
 			out = append(out, g.stmt(x.Init)...)
 		}
 		out = append(out, g.expr(x.Cond)...)
-		out = append(out, op("if", g.norm(g.text(x.Cond))))
+		out = append(out, g.op("if", g.norm(g.text(x.Cond))))
 		thn := g.block(x.Body.List)
 		var els []string
 		switch e := x.Else.(type) {
@@ -267,11 +432,11 @@ func (g *opsGen) stmt(s ast.Stmt) (out []string) {
 		if x.Cond != nil {
 			condText = g.norm(g.text(x.Cond))
 		}
-		out = append(out, op("for", condText))
+		out = append(out, g.op("for", condText))
 		return append(out, "SLoop "+coqList(body))
 	case *ast.RangeStmt:
 		out = append(out, g.expr(x.X)...)
-		out = append(out, op("range", g.norm(g.text(x.X))))
+		out = append(out, g.op("range", g.norm(g.text(x.X))))
 		return append(out, "SLoop "+coqList(g.block(x.Body.List)))
 	case *ast.SwitchStmt:
 		if x.Init != nil {
@@ -297,19 +462,19 @@ func (g *opsGen) stmt(s ast.Stmt) (out []string) {
 			for _, e := range cc.List {
 				pre = append(pre, g.expr(e)...)
 			}
-			body := append([]string{op("case", label)}, g.block(cc.Body)...)
+			body := append([]string{g.op("case", label)}, g.block(cc.Body)...)
 			return append(pre, fmt.Sprintf("SIf %s %s", coqList(body), coqList(chain(cs[1:]))))
 		}
 		return append(out, chain(x.Body.List)...)
 	case *ast.TypeSwitchStmt:
-		out = append(out, op("type-switch", g.norm(g.text(x.Assign))))
+		out = append(out, g.op("type-switch", g.norm(g.text(x.Assign))))
 		for _, c := range x.Body.List {
 			cc := c.(*ast.CaseClause)
 			var ts []string
 			for _, e := range cc.List {
 				ts = append(ts, g.text(e))
 			}
-			body := append([]string{op("case", strings.Join(ts, ", "))}, g.block(cc.Body)...)
+			body := append([]string{g.op("case", strings.Join(ts, ", "))}, g.block(cc.Body)...)
 			out = append(out, fmt.Sprintf("SIf %s []", coqList(body)))
 		}
 		return out
@@ -333,7 +498,7 @@ func (g *opsGen) stmt(s ast.Stmt) (out []string) {
 				bodies = append(bodies, append(g.exprNoRecv(cm.Rhs[0]), g.block(cc.Body)...))
 			}
 		}
-		out = append(out, op("select", strings.Join(labels, " | ")))
+		out = append(out, g.op("select", strings.Join(labels, " | ")))
 		// one SIf per case, nested: case i is the "then" branch at depth i
 		var nest func(i int) []string
 		nest = func(i int) []string {
@@ -351,7 +516,7 @@ func (g *opsGen) stmt(s ast.Stmt) (out []string) {
 	case *ast.BlockStmt:
 		return g.block(x.List)
 	case *ast.BranchStmt:
-		return []string{op("branch", x.Tok.String())}
+		return []string{g.op("branch", x.Tok.String())}
 	case *ast.LabeledStmt:
 		return g.stmt(x.Stmt)
 	case *ast.EmptyStmt:
@@ -410,7 +575,7 @@ func genOps(repo string, targets []opsTarget) (string, error) {
 		if fd == nil {
 			return "", fmt.Errorf("%s: function %s.%s not found", t.file, t.recv, t.fn)
 		}
-		g := &opsGen{fset: fset}
+		g := &opsGen{fset: fset, locals: collectLocals(fd), seen: map[string]int{}, fields: collectFields(f), consts: packageConsts(repo, filepath.Dir(t.file))}
 		if fd.Recv != nil && len(fd.Recv.List[0].Names) == 1 {
 			g.recv = fd.Recv.List[0].Names[0].Name
 		}
